@@ -18,6 +18,7 @@ def main(prop, tier, file, obs, functions, assumptions, outside, signature, boun
         if ob["func"].startswith("selftest") and res["status"] != "discharged":
             print("HARNESS ERROR: engine self-test %s not confirmed: %s" % (ob["func"], res.get("reason") or res.get("info")))
             res["harness_error"] = True
+            res["fatal"] = True
             res["status"] = "inconclusive"
     chk.notes.append("xh: one `crosshair check --report_all` process per obligation; states/transitions count obligations (CrossHair does not report path counts).")
     chk.add_results(pairs)
